@@ -60,17 +60,42 @@
    attribute of the handler (the record comes last at its level), a later WithAttrs displaces an
    earlier one, the last of two equal keys inside one list displaces the first.
 
-   ATTRIBUTES are kept flattened: a shape is a sequence of leaves [p, k, v, o] - p the path of keys
+   ATTRIBUTE TREES AND LOGVALUERS.  A shape (RecTrees[i], DerivTrees[i]) is a list of NODES
+       [key, lv, g, k, v, kids]
+   g = FALSE: a leaf of value kind k and value id v;  g = TRUE: a group with the members kids.
+   lv (0..MaxLv) says how the caller HANDS THE VALUE OVER: 0 = as it is (slog.Int, slog.Group, ...),
+   n > 0 = as a log/slog LogValuer whose LogValue() has to be asked n times before the value (the
+   leaf value, or the group with its members) appears - n = 1 a plain LogValuer, n = 2, 3 a LogValuer
+   that resolves to another LogValuer.  EVERY node may be a LogValuer: a leaf at top level, a member
+   of a literal group, a group, a member of a group a LogValuer resolved to (User -> Group(id,
+   Any("home", Address)), Address a LogValuer again), a member of a literal group inside such a group,
+   at any depth, in a record, in a WithAttrs list, under WithGroup.  "LogValuers resolved" (statement)
+   = the record shows the tree with every lv set to 0 (Plain): what log/slog's own handlers print,
+   which resolve every attribute value they meet, members of groups included - Value.Resolve() alone
+   resolves the value it is called on and NOT the members of a group it yields.
+     Leaves(tree)   DECLARATIVE: the leaves [p, k, v, o, w] of the tree, walking through LogValuers as
+                    if they were not there; w only remembers them (w[d] = lv of the ancestor at depth d)
+                    and is used for nothing but naming a failure (VClass) and for ValuerClasses
+     ValuersTransparent   lemma: apart from w, Leaves(t) = Leaves(Plain(t))
+     Conv(tree)     MECHANISM: what the adapter's conversion yields, node by node; equals Leaves(tree)
+                    unless a deviation is enabled                     -> RecordComplete, AddsGiven
+     ValuerClasses, NeedValuerClasses, ValuerCover   the positions (leaf/group, chain or not, at top /
+                    in literal groups / directly in a LogValuer's group / deeper in it) at which the
+                    shapes an exhaustive configuration probes (HandleCells) and derives with
+                    (DerivOffered) have LogValuers; the configuration lists the ones it needs
+   OUT OF SCOPE: a LogValuer whose LogValue() panics, or that resolves to LogValuers without end
+   (log/slog gives up after 100 rounds and substitutes an error value): the statement says "resolved",
+   and such a value has no resolved form to compare with.
+
+   FLATTENED FORM: a shape's leaves [p, k, v, o, w] - p the path of keys
    (groups outermost first, the leaf's key last), k the value kind, v the value id, o the path of
    ORDINALS: o[d] is the position of the leaf's ancestor at depth d (the leaf itself for the last
    d) in the list it was given in; two leaves lie in the same group INSTANCE at depth d iff their
    p and o agree on the first d elements (two groups with the same key in one list are different
    instances).  In a qualified leaf the ordinal of a top-level element of derivation step i is
    i*K + position, a WithGroup step i has ordinal i*K, the record is step n+1: integer order =
-   logical order.  A LogValuer is a leaf/group whose concrete value the harness wraps; "resolved"
-   means the expected leaves are the resolved ones, so the specification does not distinguish
-   them.  A qualified leaf [p, k, v, o, q] also remembers how many leading path elements come
-   from WithGroup (q): the statement does not say whether those appear as nesting or not, so
+   logical order.  A qualified leaf [p, k, v, o, w, q] also remembers how many leading path elements
+   come from WithGroup (q): the statement does not say whether those appear as nesting or not, so
    both are accepted.
 
    OPERATORS THAT STATE THE PROPERTY
@@ -98,15 +123,23 @@
      "AttrsBehindRecord"     the handler's attributes are ordered behind the record's   (RecordWins)
      "RegRemapsStd"          RegisterLevel(c, treated as X) also makes X's log/slog namesake map to c
                                                                     (StdIndependent, RegistrationLocal)
-     "RegErrDevOfTreated"    RegWithPrintToErrorDevice also routes the treated-as level (RegistryLocal) *)
+     "RegErrDevOfTreated"    RegWithPrintToErrorDevice also routes the treated-as level (RegistryLocal)
+     "ResolveTopOnly"        once a LogValuer has been resolved, LogValuers among the members of the
+                             group it resolved to (at any depth) are passed on as raw Go values -
+                             "Resolve never yields a LogValuer"        (RecordComplete, AddsGiven)
+     "ResolveOnce"           LogValue() is asked once: a LogValuer that resolves to a LogValuer is
+                             passed on as a raw Go value                (RecordComplete, AddsGiven) *)
 EXTENDS Levels, SequencesExt, FiniteSetsExt
 
 CONSTANTS
     Roots,           \* sequence of set-ups [L, oi]: level the logger has before, index into Opts
     Opts,            \* sequence of HandlerOptions: [nocolor, nosource, json, level] (level 0 = unset)
     SlogLevels,      \* log/slog level values probed
-    RecShapes,       \* sequence of record attribute shapes (sequences of leaves [p, k, v, o])
-    DerivShapes,     \* sequence of attribute shapes given to WithAttrs
+    RecTrees,        \* sequence of record attribute shapes (lists of nodes [key, lv, g, k, v, kids])
+    DerivTrees,      \* sequence of attribute shapes given to WithAttrs
+    RecLeaves, DerivLeaves, \* the same shapes flattened (checked: ASSUME LeavesGiven)
+    DerivOffered,    \* indices of DerivTrees the exhaustive model gives to WithAttrs
+    NeedValuerClasses, \* LogValuer positions the explored shapes must contain (see ValuerCover)
     GroupNames,      \* set of names given to WithGroup
     MaxHandlers,     \* bound on handlers per behaviour in the exhaustive model
     DeriveFromAny,   \* TRUE: derive from any handler (tree); FALSE: only from the newest (chain)
@@ -179,6 +212,98 @@ EntryLogSevs(s, v) ==
 Gate(s, L, r) == Admit(L, r, s.dbg, s.treat)
 
 -----------------------------------------------------------------------------
+(* attribute trees and LogValuers *)
+
+MaxLv == 3
+MaxDepth == 4
+
+RECURSIVE WellFormed(_, _)
+WellFormed(nodes, depth) ==
+    \A i \in 1..Len(nodes) :
+        LET n == nodes[i]
+        IN /\ n.lv \in 0..MaxLv
+           /\ IF n.g THEN Len(n.kids) > 0 /\ depth < MaxDepth /\ WellFormed(n.kids, depth + 1)
+              ELSE n.kids = <<>>
+
+\* "LogValuers resolved": the tree once every LogValuer, at every depth, has been asked for its value
+RECURSIVE Plain(_)
+Plain(nodes) == [i \in 1..Len(nodes) |-> [nodes[i] EXCEPT !.lv = 0, !.kids = Plain(@)]]
+
+\* leaves of nodes[i..], below path p / ordinals o / hand-over counts w.  `raw` = the hand-over counts
+\* at which the mechanism stops resolving: raw[1] for a node outside, raw[2] for a node inside a
+\* group some LogValuer resolved to (MaxLv + 1 = never stops); a node it stops at is passed on as the
+\* Go value it is: one leaf of kind "raw", whatever it would have resolved to
+RECURSIVE Flat(_, _, _, _, _, _, _)
+Flat(nodes, i, p, o, w, below, raw) ==
+    IF i > Len(nodes) THEN <<>>
+    ELSE LET n == nodes[i]
+             p2 == Append(p, n.key)  o2 == Append(o, i)  w2 == Append(w, n.lv)
+             here == IF n.lv >= raw[IF below THEN 2 ELSE 1] THEN <<[p |-> p2, k |-> "raw", v |-> 0, o |-> o2, w |-> w2]>>
+                     ELSE IF n.g THEN Flat(n.kids, 1, p2, o2, w2, below \/ n.lv > 0, raw)
+                     ELSE <<[p |-> p2, k |-> n.k, v |-> n.v, o |-> o2, w |-> w2]>>
+         IN here \o Flat(nodes, i + 1, p, o, w, below, raw)
+
+\* DECLARATIVE: every LogValuer resolved, wherever it is
+Leaves(tree) == Flat(tree, 1, <<>>, <<>>, <<>>, FALSE, <<MaxLv + 1, MaxLv + 1>>)
+
+\* MECHANISM: the adapter's conversion of one list of log/slog attributes
+Conv(tree) ==
+    LET once == IF "ResolveOnce" \in Deviations THEN 2 ELSE MaxLv + 1
+        inner == IF "ResolveTopOnly" \in Deviations THEN 1 ELSE once
+    IN Flat(tree, 1, <<>>, <<>>, <<>>, FALSE, <<once, inner>>)
+
+\* The flattened shapes are handed in as constants (RecLeaves, DerivLeaves - TLC evaluates a constant
+\* once, but a definition that goes through a RECURSIVE operator at every use) and checked here, once,
+\* to be what Leaves says and - unless a LogValuer deviation is enabled - what the mechanism yields.
+ValuerDeviations == Deviations \cap {"ResolveTopOnly", "ResolveOnce"}
+RecShapes == RecLeaves
+DerivShapes == DerivLeaves
+RecConv == IF ValuerDeviations = {} THEN RecLeaves ELSE [i \in DOMAIN RecTrees |-> Conv(RecTrees[i])]
+DerivConv == IF ValuerDeviations = {} THEN DerivLeaves ELSE [i \in DOMAIN DerivTrees |-> Conv(DerivTrees[i])]
+
+ASSUME LeavesGiven == /\ DOMAIN RecLeaves = DOMAIN RecTrees /\ DOMAIN DerivLeaves = DOMAIN DerivTrees
+                      /\ \A i \in DOMAIN RecTrees : RecLeaves[i] = Leaves(RecTrees[i])
+                      /\ \A i \in DOMAIN DerivTrees : DerivLeaves[i] = Leaves(DerivTrees[i])
+ASSUME ConvGiven == ValuerDeviations = {} =>
+                        /\ \A i \in DOMAIN RecTrees : RecLeaves[i] = Conv(RecTrees[i])
+                        /\ \A i \in DOMAIN DerivTrees : DerivLeaves[i] = Conv(DerivTrees[i])
+
+Bare(leaves) == [i \in 1..Len(leaves) |-> [p |-> leaves[i].p, k |-> leaves[i].k, v |-> leaves[i].v, o |-> leaves[i].o]]
+
+\* the expected leaves are those of the fully resolved tree
+ValuersTransparent(tree) == Bare(Leaves(tree)) = Bare(Leaves(Plain(tree)))
+
+\* where the LogValuers of a list sit: <leaf|group>[-chain]@<top|lit|val|val-lit>
+\*   top = an element of the list itself, lit = a member of literal groups only, val = a member of a
+\*   group a LogValuer resolved to, val-lit = a member of a literal group somewhere inside such a group
+RECURSIVE ValuerClasses(_, _)
+ValuerClasses(nodes, anc) ==
+    UNION {LET n == nodes[i]
+               ctx == IF anc = <<>> THEN "top"
+                      ELSE IF \A j \in 1..Len(anc) : anc[j] = 0 THEN "lit"
+                      ELSE IF Last(anc) > 0 THEN "val" ELSE "val-lit"
+               own == IF n.lv = 0 THEN {}
+                      ELSE {(IF n.g THEN "group" ELSE "leaf") \o (IF n.lv >= 2 THEN "-chain" ELSE "") \o "@" \o ctx}
+           IN own \cup (IF n.g THEN ValuerClasses(n.kids, Append(anc, n.lv)) ELSE {}) : i \in 1..Len(nodes)}
+
+ClassesOf(trees, idx) == UNION {ValuerClasses(trees[i], <<>>) : i \in idx}
+
+\* the class of one leaf by the LogValuers on its path (names a failure, nothing else)
+VClass(L) ==
+    LET pos == {d \in 1..Len(L.w) : L.w[d] > 0}
+    IN IF pos = {} THEN "plain"
+       ELSE IF Cardinality(pos) >= 2 THEN "valuer-in-valuer"
+       ELSE IF \E d \in pos : L.w[d] >= 2 THEN "valuer-chain"
+       ELSE IF Len(L.w) \in pos THEN "valuer" ELSE "group-valuer"
+
+ASSUME TreesWellFormed == /\ \A i \in DOMAIN RecTrees : WellFormed(RecTrees[i], 1) /\ ValuersTransparent(RecTrees[i])
+                          /\ \A i \in DOMAIN DerivTrees : WellFormed(DerivTrees[i], 1) /\ ValuersTransparent(DerivTrees[i])
+\* not vacuous: LogValuers sit at every position the configuration asks for, in the records probed
+\* and in the lists given to WithAttrs
+ASSUME ValuerCover == /\ NeedValuerClasses \subseteq ClassesOf(RecTrees, {HandleCells[c].sh : c \in DOMAIN HandleCells})
+                      /\ NeedValuerClasses \subseteq ClassesOf(DerivTrees, DerivOffered)
+
+-----------------------------------------------------------------------------
 (* the underlying logger and the handlers *)
 
 FmtOf(o) == IF o.json THEN "json" ELSE IF o.nocolor THEN "logfmt" ELSE "color"
@@ -195,7 +320,7 @@ FreshHandler == [lg |-> [level |-> PkgLevel, fmt |-> "color", dest |-> "default"
 \* the leaves of one list given at derivation step `step` under the open groups pre (ordinals preo)
 Qualify(pre, preo, step, leaves) ==
     [i \in 1..Len(leaves) |-> [p |-> pre \o leaves[i].p, o |-> preo \o <<step * K + leaves[i].o[1]>> \o Tail(leaves[i].o),
-                               k |-> leaves[i].k, v |-> leaves[i].v, q |-> Len(pre)]]
+                               k |-> leaves[i].k, v |-> leaves[i].v, w |-> leaves[i].w, q |-> Len(pre)]]
 
 WithAttrsI(h, as) == [h EXCEPT !.n = @ + 1, !.added = @ \o Qualify(h.pre, h.preo, h.n + 1, as)]
 WithGroupI(h, g) == [h EXCEPT !.n = @ + 1, !.pre = Append(@, g), !.preo = Append(@, (h.n + 1) * K)]
@@ -209,13 +334,14 @@ DeriveSet(ideal) == {ideal} \cup (IF "DerivedFresh" \in Deviations THEN {FreshHa
 \* Handler.Enabled(v): fixed for the four standard levels, unconstrained otherwise
 EnabledSet(s, h, v) == IF v \in Std THEN {Gate(s, h.lg.level, Namesake(v))} ELSE BOOLEAN
 
-\* the one record Handle emits, once the severity sev \in MapLevel(v) is fixed:
+\* the one record Handle emits, once the severity sev \in MapLevel(v) is fixed (mechanism: the
+\* record's attributes as the conversion yields them):
 \* t = time id of the record (0 = "taken by log/slog.Logger during the call"), m = message bytes
 \* the record's own attributes come last at their level (step n + 1)
 RecStep(h) == IF "AttrsBehindRecord" \in Deviations THEN 0 ELSE h.n + 1
 Canon(h, sev, sh, t, m) ==
     [dest |-> h.lg.dest, fmt |-> h.lg.fmt, sev |-> sev, msg |-> m, t |-> t,
-     given |-> h.added, rec |-> Qualify(h.pre, h.preo, RecStep(h), RecShapes[sh])]
+     given |-> h.added, rec |-> Qualify(h.pre, h.preo, RecStep(h), RecConv[sh])]
 
 \* destination class of a record: the logger routes by severity (error device or not)
 WriterOf(s, dest, sev) ==
@@ -260,7 +386,7 @@ OpenOrds(hist) ==
 GivenBy(hist) ==
     UNION {{[p |-> OpenGroups(SubSeq(hist, 1, i - 1)) \o DerivShapes[hist[i].a][j].p,
              o |-> OpenOrds(SubSeq(hist, 1, i - 1)) \o <<i * K + DerivShapes[hist[i].a][j].o[1]>> \o Tail(DerivShapes[hist[i].a][j].o),
-             k |-> DerivShapes[hist[i].a][j].k, v |-> DerivShapes[hist[i].a][j].v,
+             k |-> DerivShapes[hist[i].a][j].k, v |-> DerivShapes[hist[i].a][j].v, w |-> DerivShapes[hist[i].a][j].w,
              q |-> Len(OpenGroups(SubSeq(hist, 1, i - 1)))] : j \in 1..Len(DerivShapes[hist[i].a])}
            : i \in {x \in 1..Len(hist) : hist[x].op = "attrs"}}
 
@@ -307,7 +433,7 @@ AttrStep(a) == [op |-> "attrs", a |-> a, g |-> ""]
 GroupStep(g) == [op |-> "group", a |-> 0, g |-> g]
 
 DeriveSteps(s, h, step) ==
-    LET ideal == IF step.op = "attrs" THEN WithAttrsI(s.hs[h].s, DerivShapes[step.a])
+    LET ideal == IF step.op = "attrs" THEN WithAttrsI(s.hs[h].s, DerivConv[step.a])
                  ELSE WithGroupI(s.hs[h].s, step.g)
     IN {[s EXCEPT !.hs = Append(@, Entry(n, Append(s.hs[h].hist, step), h))] : n \in DeriveSet(ideal)}
 
@@ -336,7 +462,7 @@ Register(ci) == CanRegister(st, RegCells[ci]) /\ st' = RegisterStep(st, RegCells
 
 Next ==
     \/ \E ri \in DOMAIN Roots : NewHandler(ri)
-    \/ \E h \in 1..MaxHandlers, a \in DOMAIN DerivShapes : WithAttrs(h, a)
+    \/ \E h \in 1..MaxHandlers, a \in DerivOffered : WithAttrs(h, a)
     \/ \E h \in 1..MaxHandlers, g \in GroupNames : WithGroup(h, g)
     \/ \E h \in 1..MaxHandlers, v \in SlogLevels : Enabled(h, v)
     \/ \E h \in 1..MaxHandlers, ci \in DOMAIN HandleCells : Handle(h, ci)
@@ -389,7 +515,7 @@ RecordComplete ==
                   IN /\ Len(r.rec) = Len(RecShapes[sh])
                      /\ \A x \in 1..Len(r.rec) :
                             /\ r.rec[x].p = og \o RecShapes[sh][x].p
-                            /\ r.rec[x].k = RecShapes[sh][x].k /\ r.rec[x].v = RecShapes[sh][x].v
+                            /\ r.rec[x].k = RecShapes[sh][x].k /\ r.rec[x].v = RecShapes[sh][x].v   \* LogValuers resolved
                             /\ Tail(SubSeq(r.rec[x].o, Len(og) + 1, Len(r.rec[x].o))) = Tail(RecShapes[sh][x].o)
                      /\ ToSet(r.given) = gb
            \* message, time, severity as given; destination and format of the set-up
